@@ -12,7 +12,10 @@
 From E57 Require Import Base.Prelude Model.Device Model.PagedWriter Model.PagedReader Model.Prog
   Model.FileBin Model.ReaderOpen Model.CrashImage.
 From E57 Require Import Spec.PageReadSpec.
-From E57 Require Import Proofs.CrashLog Proofs.CrashOpen Proofs.CrashTrace Proofs.CrashMain Proofs.CrashBridge.
+From E57 Require Import Model.MetaFile Model.XmlTree Model.XmlParse Model.XmlGen Model.XmlExtract Model.ReaderFull
+  Spec.MetaTree Spec.XgWriterOk.
+From E57 Require Import Proofs.CrashLog Proofs.CrashOpen Proofs.CrashTrace Proofs.CrashMain Proofs.CrashBridge
+  Proofs.CrashXml.
 
 (** the completed file is the replay of the whole write sequence *)
 Theorem C15_replay : forall (A : Type) (p : wprog A), final_image p = apply_writes (trace_of p).
@@ -108,3 +111,33 @@ Theorem C15_accepted_is_complete : forall (is : list item) (xml : list N),
   end.
 Proof. exact accepted_is_complete. Qed.
 Print Assumptions C15_accepted_is_complete.
+
+(** with the XML layer: [xml] is the writer's XML for the metadata [m] ([gen_root]); a crash image
+    that the FULL reader accepts - [reader_open] returns bytes [x] and the XML parser model accepts
+    [x] - carries the whole XML, the parsed document is the writer's tree, and the image is the
+    completed file byte for byte.  (The empty text and every prefix at least 2 bytes short of the
+    writer's rendering are rejected by the parser: Proofs/XmlpPrefix.v.) *)
+Theorem C15_accepted_is_complete_xml : forall (is : list FileBin.item) (m : file_meta) (xml : list N),
+  writer_meta_ok m = true -> meta_xml_ok m = true -> gen_root m = Ok xml ->
+  let p := crash_prog is xml in
+  let tr := trace_of p in
+  len (final_image p) < 2 ^ 64 ->
+  forall (n cut : nat) s h x d',
+  open_result (crash_image tr n cut) = Ok (s, h, x) -> xml_parse x = ParseOk d' ->
+  x = xml /\ d' = tree_of m /\ crash_image tr n cut = final_image p /\ snd (wrun p pw_fresh) = Ok tt.
+Proof. exact accepted_is_complete_xml. Qed.
+Print Assumptions C15_accepted_is_complete_xml.
+
+(** the same for the model of E57Reader::new as a whole (UTF-8 check, parser, extraction) *)
+Theorem C15_reader_new_accepts_only_complete :
+  forall pf64 pf32 fdiv (is : list FileBin.item) (m : file_meta) (xml : list N),
+  writer_meta_ok m = true -> meta_xml_ok m = true -> gen_root m = Ok xml ->
+  let p := crash_prog is xml in
+  let tr := trace_of p in
+  len (final_image p) < 2 ^ 64 ->
+  forall (n cut : nat) s h x m',
+  snd (reader_new pf64 pf32 fdiv (dev_init (crash_image tr n cut) None)) = Ok (s, h, x, m') ->
+  x = xml /\ crash_image tr n cut = final_image p /\ snd (wrun p pw_fresh) = Ok tt /\
+  extract_all pf64 pf32 fdiv (tree_of m) = Ok m'.
+Proof. exact reader_new_accepts_only_complete. Qed.
+Print Assumptions C15_reader_new_accepts_only_complete.
